@@ -39,7 +39,7 @@ theorem inv_eraseOrphan {s : State} (h : Inv s) {q : Nat} {Q : Rep} (ho : Orphan
   have hdisj : ∀ c, c ∈ Q.cbs → ∀ r R, s.reps r = some R → c ∈ R.cbs → r = q :=
     fun c hc1 r R hR hc2 => h.regUniq r R q Q c hR hq hc2 hc1
   refine { repAlive := ?_, repUniq := ?_, connReg := ?cr, cbsConn := ?cc, regUniq := ?_, cbsNodup := ?_,
-           parentOk := ?_, trkReg := ?_, trkEnt := ?_, trkNodup := ?_, refOk := ?_, ownOk := ?_, nestOk := ?_, anonBound := ?_, repBound := ?_ }
+           parentOk := ?_, trkReg := ?_, trkEnt := ?_, trkNodup := ?_, refOk := ?_, ownOk := ?_, nestOk := ?_, anonBound := ?_, repBound := ?_, regHeld := ?_, ownCOk := ?_ }
   case cr =>
     intro c w hcw
     rw [hc c] at hcw
@@ -65,9 +65,61 @@ theorem exchangeRep_eq (d n : Nat) (s : State) : exchangeRep d n s =
     match repOf s d with
     | none => s.modSlot d fun D => { D with rep := some n }
     | some q =>
-      deleteRep q ((s.modRep n fun N => { N with parent := match s.reps q with
+      deleteRep q (weakNotify q ((s.modRep n fun N => { N with parent := match s.reps q with
           | some Q => Q.parent
-          | none => none }).modSlot d fun D => { D with rep := some n }) := rfl
+          | none => none }).modSlot d fun D => { D with rep := some n })) := rfl
+
+theorem State.ext' {a b : State} (h1 : a.slots = b.slots) (h2 : a.reps = b.reps) (h3 : a.trks = b.trks)
+    (h4 : a.conns = b.conns) (h5 : a.nextRep = b.nextRep) (h6 : a.err = b.err) : a = b := by
+  cases a; cases b; simp_all
+
+/-- `notify_callbacks()` of a representation: the registered connections are nulled, the list is gone -/
+theorem inv_weakNotify {s : State} (h : Inv s) (r : Nat) : Inv (weakNotify r s) := by
+  cases hr : s.reps r with
+  | none =>
+    have : weakNotify r s = s := by unfold weakNotify; simp only [hr]
+    rw [this]; exact h
+  | some R =>
+    have hc := conns_weakNotify r s R hr
+    inv_auto h
+
+theorem weakNotify_none {s : State} {r : Nat} (hr : s.reps r = none) : weakNotify r s = s := by
+  unfold weakNotify; simp only [hr]
+
+/-- `notify_callbacks()` of the old representation commutes with an update of a slot variable -/
+theorem weakNotify_modSlot (q v : Nat) (g : SVar → SVar) (s : State) :
+    weakNotify q (s.modSlot v g) = (weakNotify q s).modSlot v g := by
+  cases hq : s.reps q with
+  | none =>
+    rw [weakNotify_none hq, weakNotify_none (by rw [reps_modSlot]; exact hq)]
+  | some Q =>
+    have hq' : (s.modSlot v g).reps q = some Q := by rw [reps_modSlot]; exact hq
+    apply State.ext'
+    · funext x; simp only [slotg_simp]
+    · funext x; simp only [slotg_simp]
+    · simp only [slotg_simp]
+    · funext c; rw [conns_weakNotify q _ Q hq', conns_modSlot, conns_modSlot, conns_weakNotify q s Q hq]
+    · simp only [slotg_simp]
+    · simp only [slotg_simp]
+
+/-- … and with an update of another representation that keeps its registrations -/
+theorem weakNotify_modRep (q n : Nat) (g : Rep → Rep) (s : State) (hne : n ≠ q) :
+    weakNotify q (s.modRep n g) = (weakNotify q s).modRep n g := by
+  cases hq : s.reps q with
+  | none =>
+    rw [weakNotify_none hq, weakNotify_none (by rw [reps_modRep, if_neg (Ne.symm hne)]; exact hq)]
+  | some Q =>
+    have hq' : (s.modRep n g).reps q = some Q := by rw [reps_modRep, if_neg (Ne.symm hne)]; exact hq
+    apply State.ext'
+    · simp only [slotg_simp]
+    · funext x; simp only [slotg_simp]
+      by_cases hxq : x = q
+      · subst hxq; simp [Ne.symm hne]
+      · simp [hxq]
+    · simp only [slotg_simp]
+    · funext c; rw [conns_weakNotify q _ Q hq', conns_modRep, conns_modRep, conns_weakNotify q s Q hq]
+    · simp only [slotg_simp]
+    · simp only [slotg_simp]
 
 /-- storing an unstored, unregistered representation in a variable that has none -/
 theorem inv_adoptMod {s : State} (h : Inv s) {d n : Nat} {N : Rep} (hd : repOf s d = none)
@@ -86,7 +138,7 @@ theorem inv_adoptMod {s : State} (h : Inv s) {d n : Nat} {N : Rep} (hd : repOf s
   have hnreg : ∀ r R c, s.reps r = some R → c ∈ R.cbs → r ≠ n := by
     intro r R c hR hm he; subst he; rw [hn] at hR; cases hR; rw [hnc] at hm; simp at hm
   refine { repAlive := ?_, repUniq := ?_, connReg := ?cr, cbsConn := ?cc, regUniq := ?_, cbsNodup := ?_,
-           parentOk := ?_, trkReg := ?_, trkEnt := ?_, trkNodup := ?_, refOk := ?_, ownOk := ?_, nestOk := ?_, anonBound := ?_, repBound := ?_ }
+           parentOk := ?_, trkReg := ?_, trkEnt := ?_, trkNodup := ?_, refOk := ?_, ownOk := ?_, nestOk := ?_, anonBound := ?_, repBound := ?_, regHeld := ?_, ownCOk := ?_ }
   case cr =>
     intro c w hcw
     rw [conns_modSlot] at hcw
@@ -108,7 +160,7 @@ def switchRep (d n : Nat) (par : Option Nat) (s : State) : State :=
   (s.modRep n fun N => { N with parent := par }).modSlot d fun D => { D with rep := some n }
 
 theorem inv_switchRep {s : State} (h : Inv s) {d n q : Nat} {N Q : Rep} (hq : repOf s d = some q)
-    (hQ : s.reps q = some Q) (hn : s.reps n = some N) (hnc : N.cbs = []) (ho : Orphan s n) :
+    (hQ : s.reps q = some Q) (hqc : Q.cbs = []) (hn : s.reps n = some N) (hnc : N.cbs = []) (ho : Orphan s n) :
     Inv (switchRep d n Q.parent s) ∧ Orphan (switchRep d n Q.parent s) q ∧
       repOf (switchRep d n Q.parent s) d = some n := by
   have hne : n ≠ q := fun he => ho d (by rw [he]; exact hq)
@@ -136,7 +188,7 @@ theorem inv_switchRep {s : State} (h : Inv s) {d n q : Nat} {N Q : Rep} (hq : re
     unfold switchRep; rw [conns_modSlot, conns_modRep]
   refine ⟨?_, horq, hrepd⟩
   refine { repAlive := ?_, repUniq := ?_, connReg := ?cr, cbsConn := ?cc, regUniq := ?_, cbsNodup := ?_,
-           parentOk := ?po, trkReg := ?_, trkEnt := ?_, trkNodup := ?_, refOk := ?ro, ownOk := ?_, nestOk := ?_, anonBound := ?_, repBound := ?_ }
+           parentOk := ?po, trkReg := ?_, trkEnt := ?_, trkNodup := ?_, refOk := ?ro, ownOk := ?_, nestOk := ?_, anonBound := ?_, repBound := ?_, regHeld := ?_, ownCOk := ?_ }
   case ro =>
     apply refOk_transfer h
     · intro r R' hR'
@@ -205,9 +257,14 @@ theorem inv_switchRep {s : State} (h : Inv s) {d n q : Nat} {N Q : Rep} (hq : re
   all_goals (unfold Orphan at ho; unfold switchRep; inv_clause h with [repOf_eq])
 
 theorem exchangeRep_some {s : State} {d n q : Nat} {Q : Rep} (hq : repOf s d = some q)
-    (hQ : s.reps q = some Q) :
-    exchangeRep d n s = eraseRep q (destroyRep (fuel (switchRep d n Q.parent s)) q (switchRep d n Q.parent s)) := by
-  rw [exchangeRep_eq]; simp only [hq, hQ]; rfl
+    (hQ : s.reps q = some Q) (hne : n ≠ q) :
+    exchangeRep d n s = eraseRep q (destroyRep (fuel (switchRep d n Q.parent (weakNotify q s))) q
+      (switchRep d n Q.parent (weakNotify q s))) := by
+  rw [exchangeRep_eq]; simp only [hq, hQ]
+  have : weakNotify q ((s.modRep n fun N => { N with parent := Q.parent }).modSlot d fun D =>
+      { D with rep := some n }) = switchRep d n Q.parent (weakNotify q s) := by
+    unfold switchRep; rw [weakNotify_modSlot, weakNotify_modRep _ _ _ _ hne]
+  rw [this]; rfl
 
 /-- **the exchange keeps the state well-formed** — `s` is a state in which the new representation `n` exists but
     is stored nowhere and carries no registration.  No side condition on what the old representation owns or
@@ -233,31 +290,51 @@ theorem wf_exchange {s : State} (hI : Inv s) (hidle : Idle s) {d n : Nat} {N : R
       · exact ⟨d, by rw [repOf_modSlot_rep]; simp [hD]⟩
   | some q =>
     obtain ⟨Q, hQ⟩ := hI.repAlive d q hq
-    rw [exchangeRep_some hq hQ] at he ⊢
-    rw [err_eraseRep] at he
-    obtain ⟨hI2, horq, hrepd⟩ := inv_switchRep hI hq hQ hn hnc horph
     have hne : n ≠ q := fun h => horph d (by rw [h]; exact hq)
-    have hQ2 : (switchRep d n Q.parent s).reps q = some Q := by
-      unfold switchRep; rw [reps_modSlot, reps_modRep, if_neg (Ne.symm hne)]; exact hQ
-    have hrepo : ∀ w, w ≠ d → repOf (switchRep d n Q.parent s) w = repOf s w := by
+    rw [exchangeRep_some hq hQ hne] at he ⊢
+    rw [err_eraseRep] at he
+    -- the observers of the old representation are told first
+    have hI1 : Inv (weakNotify q s) := inv_weakNotify hI q
+    have hq1 : repOf (weakNotify q s) d = some q := by rw [repOf_weakNotify]; exact hq
+    have hQ1 : (weakNotify q s).reps q = some { Q with cbs := [] } := by
+      rw [reps_weakNotify, if_pos rfl, hQ]; rfl
+    have hn1 : (weakNotify q s).reps n = some N := by rw [reps_weakNotify, if_neg hne]; exact hn
+    have horph1 : Orphan (weakNotify q s) n := by intro w; rw [repOf_weakNotify]; exact horph w
+    have hheld1 : ∀ r R, (weakNotify q s).reps r = some R → (∃ w, repOf (weakNotify q s) w = some r) ∨ r = n := by
+      intro r R hR
+      rw [reps_weakNotify] at hR
+      have : ∃ R0, s.reps r = some R0 := by
+        by_cases hrq : r = q
+        · subst hrq; exact ⟨Q, hQ⟩
+        · rw [if_neg hrq] at hR; exact ⟨R, hR⟩
+      obtain ⟨R0, hR0⟩ := this
+      rcases hheld r R0 hR0 with ⟨w, hw⟩ | h
+      · exact .inl ⟨w, by rw [repOf_weakNotify]; exact hw⟩
+      · exact .inr h
+    have hidle1 : Idle (weakNotify q s) := by unfold Idle at *; st_simp; exact hidle
+    generalize hs1 : weakNotify q s = s1 at he hI1 hq1 hQ1 hn1 horph1 hheld1 hidle1 ⊢
+    obtain ⟨hI2, horq, hrepd⟩ := inv_switchRep (Q := { Q with cbs := [] }) hI1 hq1 hQ1 rfl hn1 hnc horph1
+    have hQ2 : (switchRep d n Q.parent s1).reps q = some { Q with cbs := [] } := by
+      unfold switchRep; rw [reps_modSlot, reps_modRep, if_neg (Ne.symm hne)]; exact hQ1
+    have hrepo : ∀ w, w ≠ d → repOf (switchRep d n Q.parent s1) w = repOf s1 w := by
       intro w hwd; unfold switchRep; rw [repOf_modSlot_rep, if_neg hwd, repOf_modRep]
-    have halive2 : ∀ x X2, (switchRep d n Q.parent s).reps x = some X2 → ∃ X, s.reps x = some X := by
+    have halive2 : ∀ x X2, (switchRep d n Q.parent s1).reps x = some X2 → ∃ X, s1.reps x = some X := by
       intro x X2 hx
       unfold switchRep at hx; rw [reps_modSlot, reps_modRep] at hx
       by_cases hxn : x = n
-      · subst hxn; exact ⟨N, hn⟩
+      · subst hxn; exact ⟨N, hn1⟩
       · rw [if_neg hxn] at hx; exact ⟨X2, hx⟩
-    obtain ⟨hC3, hrest⟩ := destroyRep_spec (fuel (switchRep d n Q.parent s)) q _ hI2
+    obtain ⟨hC3, hrest⟩ := destroyRep_spec (fuel (switchRep d n Q.parent s1)) q _ hI2
     obtain ⟨hI3, hP3⟩ := hrest he
-    obtain ⟨Q3, hQ3⟩ := hC3.orphanKeep q Q hQ2 horq
-    have horq3 : Orphan (destroyRep (fuel (switchRep d n Q.parent s)) q (switchRep d n Q.parent s)) q := by
+    obtain ⟨Q3, hQ3⟩ := hC3.orphanKeep q _ hQ2 horq
+    have horq3 : Orphan (destroyRep (fuel (switchRep d n Q.parent s1)) q (switchRep d n Q.parent s1)) q := by
       intro w hw
       rw [repOf_eq] at hw
       obtain ⟨V, hV, hVr⟩ := hw
       exact horq w (repOf_eq.mpr ⟨V, hC3.slots w V hV, hVr⟩)
     refine ⟨inv_eraseOrphan hI3 horq3 hQ3 (hP3 Q3 hQ3), ?_, ?_⟩
-    · have hidle2 : Idle (switchRep d n Q.parent s) := by
-        unfold switchRep Idle at *; st_simp; exact hidle
+    · have hidle2 : Idle (switchRep d n Q.parent s1) := by
+        unfold switchRep Idle at *; st_simp; exact hidle1
       have := idle_casc hC3 hidle2
       unfold Idle at *; st_simp; exact this
     · intro x X hX
@@ -267,10 +344,10 @@ theorem wf_exchange {s : State} (hI : Inv s) (hidle : Idle s) {d n : Nat} {N : R
       · rw [if_neg hxq] at hX
         obtain ⟨X2, hX2, -⟩ := hC3.reps x X hX
         obtain ⟨X0, hX0⟩ := halive2 x X2 hX2
-        have hheld2 : ∃ w2, repOf (switchRep d n Q.parent s) w2 = some x := by
-          rcases hheld x X0 hX0 with ⟨w, hw⟩ | hxn
+        have hheld2 : ∃ w2, repOf (switchRep d n Q.parent s1) w2 = some x := by
+          rcases hheld1 x X0 hX0 with ⟨w, hw⟩ | hxn
           · by_cases hwd : w = d
-            · subst hwd; rw [hq] at hw; cases hw; exact absurd rfl hxq
+            · subst hwd; rw [hq1] at hw; cases hw; exact absurd rfl hxq
             · exact ⟨w, by rw [hrepo w hwd]; exact hw⟩
           · subst hxn; exact ⟨d, hrepd⟩
         obtain ⟨w2, hw2⟩ := hheld2
@@ -285,12 +362,13 @@ theorem deleteRepWithCheck_eq (v : Nat) (s : State) : deleteRepWithCheck v s =
     | none => s
     | some r =>
       if ((repDisconnect r s).reps r).isSome then
-        eraseRep r (destroyRep (fuel ((repDisconnect r s).modSlot v fun V => { V with rep := none })) r
-          ((repDisconnect r s).modSlot v fun V => { V with rep := none }))
+        eraseRep r (destroyRep (fuel (weakNotify r ((repDisconnect r s).modSlot v fun V => { V with rep := none }))) r
+          (weakNotify r ((repDisconnect r s).modSlot v fun V => { V with rep := none })))
       else repDisconnect r s := rfl
 
 /-- `rep_ = nullptr` before the deletion: the variable lets go of its representation, which is now stored nowhere -/
-theorem inv_unhold {s : State} (h : Inv s) {v r : Nat} (hv : repOf s v = some r) :
+theorem inv_unhold {s : State} (h : Inv s) {v r : Nat} {R : Rep} (hv : repOf s v = some r)
+    (hR : s.reps r = some R) (hrc : R.cbs = []) :
     Inv (s.modSlot v fun V => { V with rep := none }) ∧
       Orphan (s.modSlot v fun V => { V with rep := none }) r := by
   have hrepv : repOf (s.modSlot v fun V => { V with rep := none }) v = none := by
@@ -316,7 +394,7 @@ theorem inv_unhold {s : State} (h : Inv s) {v r : Nat} (hv : repOf s v = some r)
     · exact .inl (by rw [hrepo w hwv]; exact hw)
   refine ⟨?_, horq⟩
   refine { repAlive := ?_, repUniq := ?_, connReg := ?cr, cbsConn := ?cc, regUniq := ?_, cbsNodup := ?_,
-           parentOk := ?po, trkReg := ?_, trkEnt := ?_, trkNodup := ?_, refOk := ?_, ownOk := ?_, nestOk := ?_, anonBound := ?_, repBound := ?_ }
+           parentOk := ?po, trkReg := ?_, trkEnt := ?_, trkNodup := ?_, refOk := ?_, ownOk := ?_, nestOk := ?_, anonBound := ?_, repBound := ?_, regHeld := ?_, ownCOk := ?_ }
   case cr =>
     intro c w hcw
     rw [conns_modSlot] at hcw
@@ -369,31 +447,51 @@ theorem deleteRepWithCheck_spec {s : State} (hw : WF s) (v : Nat) (hnm : v < ano
         cases hx : (repDisconnect r s).err with
         | false => rfl
         | true =>
-          rw [destroyRep_err_true _ _ _ (by rw [err_modSlot]; exact hx)] at he; exact absurd he (by simp)
+          rw [destroyRep_err_true _ _ _ (by rw [err_weakNotify, err_modSlot]; exact hx)] at he
+          exact absurd he (by simp)
       obtain ⟨hC1, hI1⟩ := repDisconnect_spec hI r he1
       have hw1 : WF (repDisconnect r s) := wf_casc hC1 hw hI1
       have hv1 : repOf (repDisconnect r s) v = some r := by
         simp only [repOf, repDisconnect_slot hI hv hnm he1]; exact hv
       obtain ⟨R1, hR1⟩ := hI1.repAlive v r hv1
-      obtain ⟨hI2, horq⟩ := inv_unhold hI1 hv1
-      have hR2 : ((repDisconnect r s).modSlot v fun V => { V with rep := none }).reps r = some R1 := by
-        rw [reps_modSlot]; exact hR1
+      -- `rep_ = nullptr; old_rep_->notify_callbacks();` — the two steps commute
+      rw [weakNotify_modSlot] at he ⊢
+      have hI1' : Inv (weakNotify r (repDisconnect r s)) := inv_weakNotify hI1 r
+      have hv1' : repOf (weakNotify r (repDisconnect r s)) v = some r := by rw [repOf_weakNotify]; exact hv1
+      have hR1' : (weakNotify r (repDisconnect r s)).reps r = some { R1 with cbs := [] } := by
+        rw [reps_weakNotify, if_pos rfl, hR1]; rfl
+      have hheld1 : Held (weakNotify r (repDisconnect r s)) := by
+        intro x X hX
+        rw [reps_weakNotify] at hX
+        have : ∃ X0, (repDisconnect r s).reps x = some X0 := by
+          by_cases hxr : x = r
+          · subst hxr; exact ⟨R1, hR1⟩
+          · rw [if_neg hxr] at hX; exact ⟨X, hX⟩
+        obtain ⟨X0, hX0⟩ := this
+        obtain ⟨w, hw'⟩ := hw1.held x X0 hX0
+        exact ⟨w, by rw [repOf_weakNotify]; exact hw'⟩
+      have hidle1 : Idle (weakNotify r (repDisconnect r s)) := by
+        have := hw1.idle; unfold Idle at *; st_simp; exact this
+      generalize weakNotify r (repDisconnect r s) = s1 at he hI1' hv1' hR1' hheld1 hidle1 ⊢
+      obtain ⟨hI2, horq⟩ := inv_unhold hI1' hv1' hR1' rfl
+      have hR2 : (s1.modSlot v fun V => { V with rep := none }).reps r = some { R1 with cbs := [] } := by
+        rw [reps_modSlot]; exact hR1'
       have hrepo : ∀ w, w ≠ v →
-          repOf ((repDisconnect r s).modSlot v fun V => { V with rep := none }) w = repOf (repDisconnect r s) w := by
+          repOf (s1.modSlot v fun V => { V with rep := none }) w = repOf s1 w := by
         intro w hwv; rw [repOf_modSlot_rep, if_neg hwv]
       obtain ⟨hC3, hrest⟩ := destroyRep_spec
-        (fuel ((repDisconnect r s).modSlot v fun V => { V with rep := none })) r _ hI2
+        (fuel (s1.modSlot v fun V => { V with rep := none })) r _ hI2
       obtain ⟨hI3, hP3⟩ := hrest he
-      obtain ⟨R3, hR3⟩ := hC3.orphanKeep r R1 hR2 horq
-      have horq3 : Orphan (destroyRep (fuel ((repDisconnect r s).modSlot v fun V => { V with rep := none })) r
-          ((repDisconnect r s).modSlot v fun V => { V with rep := none })) r := by
+      obtain ⟨R3, hR3⟩ := hC3.orphanKeep r _ hR2 horq
+      have horq3 : Orphan (destroyRep (fuel (s1.modSlot v fun V => { V with rep := none })) r
+          (s1.modSlot v fun V => { V with rep := none })) r := by
         intro w hw'
         rw [repOf_eq] at hw'
         obtain ⟨V, hV, hVr⟩ := hw'
         exact horq w (repOf_eq.mpr ⟨V, hC3.slots w V hV, hVr⟩)
       refine ⟨⟨inv_eraseOrphan hI3 horq3 hR3 (hP3 R3 hR3), ?_, ?_⟩, ?_, ?_⟩
-      · have hidle2 : Idle ((repDisconnect r s).modSlot v fun V => { V with rep := none }) := by
-          have := hw1.idle; unfold Idle at *; st_simp; exact this
+      · have hidle2 : Idle (s1.modSlot v fun V => { V with rep := none }) := by
+          unfold Idle at *; st_simp; exact hidle1
         have := idle_casc hC3 hidle2
         unfold Idle at *; st_simp; exact this
       · intro x X hX
@@ -403,8 +501,8 @@ theorem deleteRepWithCheck_spec {s : State} (hw : WF s) (v : Nat) (hnm : v < ano
         · rw [if_neg hxr] at hX
           obtain ⟨X2, hX2, -⟩ := hC3.reps x X hX
           rw [reps_modSlot] at hX2
-          obtain ⟨w, hw'⟩ := hw1.held x X2 hX2
-          have hwv : w ≠ v := fun h => by subst h; rw [hv1] at hw'; cases hw'; exact hxr rfl
+          obtain ⟨w, hw'⟩ := hheld1 x X2 hX2
+          have hwv : w ≠ v := fun h => by subst h; rw [hv1'] at hw'; cases hw'; exact hxr rfl
           rcases hC3.killed w x (by rw [hrepo w hwv]; exact hw') with hk | ⟨-, hk⟩
           · exact ⟨w, by rw [repOf_eraseRep]; exact hk⟩
           · rw [hk] at hX; cases hX
